@@ -22,7 +22,7 @@ ASSUMPTIONS = ["asn1tools' UPER codec is the only decoder available: a symmetric
                "tolerance 1 LSB of the data element; at the exact class boundaries of the confidence enumerations either neighbour is accepted",
                "semiMajorAxisOrientation and the unit of cluster radii are not judged (the service's intention is not documented)"]
 REQUIRED_COUNTERS = ["cam.reports", "cam.elements_compared", "vam.reports", "vam.elements_compared", "denm.requests", "denm.elements_compared",
-                     "cluster.leader_vams", "cluster.operation_containers", "gdt.reconstructions"]
+                     "cluster.leader_vams", "cluster.operation_containers", "gdt.reconstructions", "camtraj.reports", "camtraj.path_points_compared"]
 
 ITS_EPOCH_MS = 1072915200000
 ALT_CONF = [(0.01, "alt-000-01"), (0.02, "alt-000-02"), (0.05, "alt-000-05"), (0.1, "alt-000-10"), (0.2, "alt-000-20"), (0.5, "alt-000-50"), (1, "alt-001-00"),
@@ -256,6 +256,87 @@ def run_cam(spec, res):
         clock.uninstall()
 
 
+def run_camtraj(spec, res):
+    """Trajectories through ONE CA service instance: small steps and position jumps (one axis / both, either sign, around
+    the +-131071 x 0.1 microdegree range of a path point).  Every report must yield a decodable CAM, and every path point of
+    its low-frequency container must be the true offset of an earlier CAM position or the 'unavailable' code -- never a
+    wrapped value; a jump must not stall the service."""
+    from vf.vclock import VClock
+    from flexstack.facilities.ca_basic_service import cam_transmission_management as ctm
+    from flexstack.facilities.ca_basic_service.cam_coder import CAMCoder
+    rng = random.Random(spec["seed"])
+    clock = VClock().install()
+    try:
+        coder = CAMCoder()
+        for k in range(spec["cases"]):
+            btp = RecBTP()
+            tm = ctm.CAMTransmissionManagement(btp, coder, ctm.VehicleData(station_id=rng.randrange(1 << 32), station_type=5))
+            tm._active = True
+            lat, lon = rng.uniform(-70, 70), rng.uniform(-170, 170)
+            steps = []
+            for _ in range(rng.randrange(4, 10)):
+                r = rng.random()
+                if r < 0.5:
+                    dlat, dlon = rng.uniform(-3e-4, 3e-4), rng.uniform(-3e-4, 3e-4)
+                else:
+                    mag = rng.choice((0.0131070, 0.0131071, 0.0131072, 0.0131073, 0.0132, 0.02, 0.05, 1.0))
+                    axis = rng.choice(("lat", "lon", "both"))
+                    dlat = mag * rng.choice((-1, 1)) if axis in ("lat", "both") else rng.uniform(-1e-4, 1e-4)
+                    dlon = mag * rng.choice((-1, 1)) if axis in ("lon", "both") else rng.uniform(-1e-4, 1e-4)
+                steps.append((dlat, dlon))
+            ctx = {"service": "camtraj", "start": [lat, lon], "steps": steps}
+            sent_pos = []      # positions of the CAMs handed over so far (most recent last)
+            stalled = False
+            for i, (dlat, dlon) in enumerate([(0.0, 0.0)] + steps):
+                lat, lon = max(-89.0, min(89.0, lat + dlat)), max(-179.0, min(179.0, lon + dlon))
+                clock.advance(1.1)          # beyond T_GenCamMax and the LF period: a CAM with the LF container is due
+                tpv = {"class": "TPV", "mode": 3, "time": iso(clock.now()), "lat": lat, "lon": lon, "altHAE": 50.0, "speed": 10.0, "track": 45.0,
+                       "epx": 2.0, "epy": 2.0, "epv": 3.0, "epd": 1.0}
+                n0 = len(btp.reqs)
+                res.count("camtraj.reports")
+                try:
+                    tm.location_service_callback(tpv)
+                    tm._evaluate_and_maybe_send()
+                except Exception as e:  # noqa
+                    res.violation(f"C11:cam:generation-raises-{type(e).__name__}[trajectory]", f"{e!r}", {**ctx, "_step": i})
+                    stalled = True
+                    break
+                jump = "jump" if max(abs(dlat), abs(dlon)) > 0.013 else "step"
+                one_axis = (abs(dlat) > 0.013) != (abs(dlon) > 0.013)
+                cls = f"[after-position-{jump}{'-in-one-axis' if jump == 'jump' and one_axis else ''}]"
+                if len(btp.reqs) != n0 + 1:
+                    res.violation(f"C11:cam:generation-skipped-or-stalled{cls}", f"report {i}: {len(btp.reqs) - n0} CAMs handed over 1.1 s after the previous one", {**ctx, "_step": i})
+                    continue
+                try:
+                    d = coder.decode(btp.reqs[-1].data)
+                except Exception as e:  # noqa
+                    res.violation(f"C11:cam:payload-undecodable{cls}", f"{e!r}", {**ctx, "_step": i})
+                    sent_pos.append((lat, lon))
+                    continue
+                lf = d["cam"]["camParameters"].get("lowFrequencyContainer")
+                if lf is not None:
+                    for j, pp in enumerate(lf[1]["pathHistory"]):
+                        res.count("camtraj.path_points_compared")
+                        if j >= len(sent_pos):
+                            res.violation("C11:cam:path-history-has-more-points-than-earlier-cams", f"{len(lf[1]['pathHistory'])} points, {len(sent_pos)} earlier CAMs", {**ctx, "_step": i})
+                            break
+                        h = sent_pos[-1 - j]
+                        for name, true in (("deltaLatitude", round((h[0] - lat) * 1e7)), ("deltaLongitude", round((h[1] - lon) * 1e7))):
+                            got = pp["pathPosition"][name]
+                            inr = -131071 <= true <= 131071
+                            if inr and abs(got - true) > 1:
+                                res.violation(f"C11:cam:path-point-{name}-differs", f"point {j}: {got}, true offset {true}", {**ctx, "_step": i})
+                            if not inr and got != 131072:
+                                res.violation(f"C11:cam:path-point-{name}-out-of-range-not-unavailable[{'wrapped' if abs(got - true) % 262144 == 0 else 'other'}]",
+                                              f"point {j}: {got}, true offset {true} is outside -131071..131071", {**ctx, "_step": i})
+                sent_pos.append((lat, lon))
+            res.case(repr(ctx))
+            if k == 0:
+                res.sample(ctx)
+    finally:
+        clock.uninstall()
+
+
 def run_vam(spec, res):
     import time as real_time
     from vf.vclock import VClock
@@ -461,17 +542,18 @@ def run_gdt(spec, res):
 
 
 def run_shard(spec, res):
-    {"cam": run_cam, "vam": run_vam, "denm": run_denm, "gdt": run_gdt}[spec["part"]](spec, res)
+    {"cam": run_cam, "camtraj": run_camtraj, "vam": run_vam, "denm": run_denm, "gdt": run_gdt}[spec["part"]](spec, res)
 
 
 def shards(tier, seed):
     if tier == "thorough":
         return ([{"part": "cam", "seed": seed * 103 + i, "cases": 20000} for i in range(6)] + [{"part": "vam", "seed": seed * 107 + i, "cases": 20000} for i in range(6)] +
-                [{"part": "denm", "seed": seed * 109 + i, "cases": 8000} for i in range(3)] + [{"part": "gdt", "seed": seed * 113, "cases": 400000}])
+                [{"part": "denm", "seed": seed * 109 + i, "cases": 8000} for i in range(3)] + [{"part": "gdt", "seed": seed * 113, "cases": 400000}] +
+                [{"part": "camtraj", "seed": seed * 127 + i, "cases": 4000} for i in range(4)])
     return ([{"part": "cam", "seed": seed * 103 + i, "cases": 700} for i in range(3)] + [{"part": "vam", "seed": seed * 107 + i, "cases": 700} for i in range(3)] +
-            [{"part": "denm", "seed": seed * 109, "cases": 400}, {"part": "gdt", "seed": seed * 113, "cases": 20000}])
+            [{"part": "denm", "seed": seed * 109, "cases": 400}, {"part": "gdt", "seed": seed * 113, "cases": 20000}, {"part": "camtraj", "seed": seed * 127, "cases": 250}])
 
 
 def replay(case, res):
     svc = case.get("service") or case.get("part")
-    run_shard({"part": svc if svc in ("cam", "vam", "denm", "gdt") else "cam", "seed": 0, "cases": 300}, res)
+    run_shard({"part": svc if svc in ("cam", "camtraj", "vam", "denm", "gdt") else "cam", "seed": 0, "cases": 300}, res)
